@@ -41,3 +41,9 @@ Print Assumptions C18_layout_parses.
 Print Assumptions C18_layout_tables.
 Print Assumptions C18_layout_nodup.
 Print Assumptions C18_version.
+
+(* the only static data of the library are the seven generated tables of likelysubtags/tables.rs (no supplement table next to them: gen/StateSites.v) *)
+From UL Require StateSitesProofs.
+Theorem C18_only_generated_statics : StateSitesProofs.library_stateless = true.
+Proof. exact StateSitesProofs.stateless. Qed.
+Print Assumptions C18_only_generated_statics.
